@@ -152,4 +152,34 @@ theorem reparse_edited_ins (f : FileS)
   · simpa [fileOfEvents] using e1
   · simpa [fileOfEvents, commentsOf] using e2
 
+/-- the same for ANY NUMBER of headers with something on their own line -/
+theorem reparse_edited_ins_many (f : FileS)
+    (hs : fileFromBytes (render f.toFile.events) = some f.toFile)
+    (hc : ∀ revs, parseRaw (render f.toFile.events) = some revs → ∀ e ∈ revs, e.canon = true)
+    (hins : InsAfterHeaders render f.toFile.events f.toFile.aug) :
+    ∃ g, load f.write = some g ∧ g.view = f.view ∧ g.comments = f.comments := by
+  have hview : f.view = f.toFile.sections.map (fun s => (s.header, bodyEntries s.header s.body none [])) := by
+    simp [FileS.view, FileS.toFile, Sec.entries, List.map_map, Function.comp_def]
+  have hcom : f.comments = f.toFile.sections.map (fun s => commentsOf s.body) := by
+    simp [FileS.comments, FileS.toFile, List.map_map, Function.comp_def]
+  have hF : fileFromBytes f.write = some (fileOfEvents f.toFile.aug) :=
+    fileFromBytes_write_ins_many hs (bomLen_of_lossless hs rfl) hc hins
+  have hl : load f.write = (fileFromBytes f.write).map _ := rfl
+  rw [hF] at hl
+  refine ⟨_, hl, ?_⟩
+  have := load_view hl hF
+  rw [hview, hcom, this.1, this.2]
+  have h1 := ins_many_sections hins
+  have hfo : fileOfEvents f.toFile.events = f.toFile := fileOfEvents_of_parsed hs
+  have hsec : (groupSections f.toFile.events).2 = f.toFile.sections := by
+    have := congrArg File.sections hfo
+    simpa [fileOfEvents] using this
+  rw [hsec] at h1
+  have e1 := congrArg (List.map fun p : Header × List Entry × List Event => (p.1, p.2.1)) h1
+  have e2 := congrArg (List.map fun p : Header × List Entry × List Event => p.2.2) h1
+  simp only [List.map_map, Function.comp_def] at e1 e2
+  constructor
+  · simpa [fileOfEvents] using e1
+  · simpa [fileOfEvents, commentsOf] using e2
+
 end GixModel.C28
